@@ -8,9 +8,10 @@
    Which leaves are admitted (clause of an active assertion with its guard / activation of an active frame /
    T-valid lemma) is decided per run outside Coq (frame bookkeeping exact, entailment by oracles): partial.
 
-   On the unchanged tree three statements of the property are FALSE for the printer; each is refuted below on a
-   model of the responsible code with a witness taken from a run, next to the statement that holds after the
-   proposed repair (fixed = true). *)
+   Before the "fix:" commits e93c417, 6bc717e, 8911063 three statements of the property were FALSE for the printer;
+   each is refuted below on a model of the code as it was (fixed = false) with a witness taken from a run, next to
+   the statement that holds for the repaired code (fixed = true), which is the code of the current tree: the
+   theorems that apply now are printed_final_fixed_ok, printed_constants_fixed_ok, store_fixed_is_last. *)
 From Coq Require Import ZArith NArith List Bool.
 From OsmtV.Sat Require Import PropLogic ResChain ProofCheck ProofPrint.
 Import ListNotations.
